@@ -18,6 +18,22 @@ from .. import ent_check as F
 PID = "C17"
 
 
+def _two_objects(t):
+    lib = C._import_lib()
+    t1, t2 = t
+
+    def out(fn):
+        try:
+            return ["ok", C.jnorm(fn())]
+        except BaseException as e:  # noqa
+            return ["exc", type(e).__name__]
+    alone = out(lambda: lib.DDLParser(t1).run())
+    p1 = lib.DDLParser(t1)
+    p2 = lib.DDLParser(t2)
+    out(p2.run)
+    return alone, out(p1.run)
+
+
 def run(tier, seed):
     t0 = time.time()
     V = C.Verdict(PID)
@@ -58,6 +74,23 @@ def run(tier, seed):
         n, nu, nbad = F.compare(V, g.beh, seeds, what)
         total += n
         uniq += nu
+        if what == "orders":
+            # every other output mode gets a slice
+            from .. import clauses as KM
+            others = [m for m in KM.MODES if m != "sql"]
+            msub = g.beh[:2800]
+            for mi, m in enumerate(others):
+                n2, nu2, _ = F.compare(V, msub[mi::len(others)] if m != "bigquery" else msub[::7], seeds[:1], "orders/" + m, run={"output_mode": m})
+                total += n2
+                uniq += nu2
+        if what == "leak":
+            # two parser objects alive at once, scripts that mix sequences and tables: the object constructed first runs last
+            pairs = [(E.render(b["hist"], seeds[0])[0], E.render(g.beh[(i * 7 + 3) % len(g.beh)]["hist"], seeds[0])[0]) for i, b in enumerate(g.beh[::max(1, len(g.beh) // 300)])]
+            for (t1, t2), (alone, first_last) in zip(pairs, C.pool().map(_two_objects, pairs, 8)):
+                if alone != first_last:
+                    V.mismatch({"what": "two parser objects alive: p1 = DDLParser(a); p2 = DDLParser(b); p2.run(); p1.run()", "ddl": t1, "other": t2, "paths": ["two_objects"],
+                                "expected": alone, "observed": first_last}, paths=["two_objects"])
+            total += len(pairs)
         cov["generation"].append({"config": what, "behaviours": len(g.beh), "renderings": n, "mismatches": nbad})
         if what == "leak":
             b = g.beh[len(g.beh) // 2]
